@@ -2,12 +2,16 @@
 # usage: confirm_seed.sh <built scratch worktree> <seed dir with patch.diff run_demo.sh>
 # checks: demo passes on the clean tree, patch applies, builds, `make check` passes, demo fails with the patch; leaves the worktree clean
 WT=$1; SD=$2; cd $WT || exit 2
+L=$(mktemp -d /tmp/cs-XXXXXX)
 git checkout -q -- . ; make -j4 >/dev/null 2>&1
-bash $SD/run_demo.sh $WT >/tmp/cs_clean.log 2>&1; RC_CLEAN=$?
+bash $SD/run_demo.sh $WT >$L/clean.log 2>&1; RC_CLEAN=$?
 git apply $SD/patch.diff || { echo "PATCH DOES NOT APPLY"; exit 2; }
-make -j4 >/tmp/cs_build.log 2>&1 || { echo "BUILD FAILS"; git checkout -q -- .; exit 2; }
-make -C test check >/tmp/cs_check.log 2>&1; NFAIL=$(grep -c "^FAIL" /tmp/cs_check.log); NPASS=$(grep -c "^PASS" /tmp/cs_check.log)
-bash $SD/run_demo.sh $WT >/tmp/cs_mut.log 2>&1; RC_MUT=$?
+make -j4 >$L/build.log 2>&1 || { echo "BUILD FAILS"; git checkout -q -- .; exit 2; }
+make -C test check >$L/check.log 2>&1; NFAIL=$(grep -c "^FAIL" $L/check.log); NPASS=$(grep -c "^PASS" $L/check.log)
+(cd examples && sh pdc2-test1.sh >$L/ex.log 2>&1); RC_EX=$?
+bash $SD/run_demo.sh $WT >$L/mut.log 2>&1; RC_MUT=$?
 git checkout -q -- . ; make -j4 >/dev/null 2>&1
-echo "demo clean rc=$RC_CLEAN  demo mutated rc=$RC_MUT  make check with patch: PASS=$NPASS FAIL=$NFAIL"
-[ $RC_CLEAN -eq 0 ] && [ $RC_MUT -ne 0 ] && [ $NFAIL -eq 0 ] && [ $NPASS -ge 18 ] && echo CONFIRMED || echo NOT-CONFIRMED
+echo "$SD: demo clean rc=$RC_CLEAN  demo mutated rc=$RC_MUT  make check with patch: PASS=$NPASS FAIL=$NFAIL example rc=$RC_EX"
+cp $L/check.log $SD/make_check.txt 2>/dev/null
+rm -rf $L
+[ $RC_CLEAN -eq 0 ] && [ $RC_MUT -ne 0 ] && [ $NFAIL -eq 0 ] && [ $NPASS -ge 18 ] && [ $RC_EX -eq 0 ] && echo "CONFIRMED $SD" || echo "NOT-CONFIRMED $SD"
